@@ -58,11 +58,14 @@ selcols: selcol ("," selcol)*
 ?selcol: func | colref | STAR | NUMBER
 func: NAME "(" (STAR | colref) ")"
 where: "WHERE"i cond (BOOL cond)*
-cond: expr CMP expr | expr "IN"i "(" select ")" -> in_cond
+cond: expr CMP expr | expr "IN"i "(" select ")" -> in_cond | expr "IN"i "(" expr ("," expr)* ")" -> in_list
 orderby: "ORDER"i "BY"i ordkey ("," ordkey)*
 ordkey: colref (ASC|DESC)?
 limit: "LIMIT"i expr
-?expr: PARAM | NUMBER | colref | func | "(" select ")" -> subselect
+?expr: atom | arith
+arith: aterm (ARITH aterm)+
+?aterm: atom | "(" arith ")"
+?atom: PARAM | NUMBER | colref | func | "(" select ")" -> subselect
 colref: NAME ("." NAME)?
 CHECKBODY: /[^()]+/
 UNIQUE: "UNIQUE"i
@@ -72,11 +75,12 @@ BOOL: "AND"i | "OR"i
 ASC: "ASC"i
 DESC: "DESC"i
 STAR: "*"
+ARITH: "+" | "-" | "*" | "/"
 PARAM: "?" | /:[A-Za-z_][A-Za-z_0-9]*/
 SETLIST: "@SETLIST@"
-CMP: ">=" | "<=" | "!=" | "<>" | "==" | "=" | "<" | ">"
+CMP: ">=" | "<=" | "!=" | "<>" | "==" | "=" | "<" | ">" | "LIKE"i | "GLOB"i
 TYPE: "INTEGER"i | "TEXT"i | "REAL"i
-NAME: /(?!(?i:WHERE|AND|OR|ORDER|LIMIT|FROM|SET|VALUES|IN|SELECT|ASC|DESC|INTO|BY)\b)[A-Za-z_][A-Za-z_0-9]*/
+NAME: /(?!(?i:WHERE|AND|OR|ORDER|LIMIT|FROM|SET|VALUES|IN|SELECT|ASC|DESC|INTO|BY|LIKE|GLOB)\b)[A-Za-z_][A-Za-z_0-9]*/
 NUMBER: /-?\d+/
 STRING: /'[^']*'/
 %import common.WS
@@ -113,6 +117,13 @@ class SExpr:
             return f"{self.name}({self.arg})"
         if self.kind == "subselect":
             return "(" + self.stmt.text() + ")"
+        if self.kind == "list":
+            return "(" + ", ".join(x.text() for x in self.items) + ")"
+        if self.kind == "arith":
+            out = self.parts[0].text()
+            for o, p_ in zip(self.ops, self.parts[1:]):
+                out += f" {o} {p_.text()}"
+            return "(" + out + ")"
         return "?"
 
 
@@ -226,6 +237,11 @@ def _build(tree):
             return SExpr("func", name=str(t.children[0]).lower(), arg=arg)
         if t.data == "subselect":
             return SExpr("subselect", stmt=stmt(t.children[0]))
+        if t.data == "arith":
+            # column / parameter arithmetic: kept as an opaque computed value (no rule takes it for a plain parameter or column)
+            parts = [expr(c) for c in t.children if not (isinstance(c, Token) and c.type == "ARITH")]
+            ops = [str(c) for c in t.children if isinstance(c, Token) and c.type == "ARITH"]
+            return SExpr("arith", parts=parts, ops=ops)
         raise AnalysisError(f"unexpected SQL expression {t.data}")
 
     def where(t, st):
@@ -242,6 +258,8 @@ def _build(tree):
             elif c.data == "in_cond":
                 l, sel = c.children
                 st.where.append(SCond(expr(l), "IN", SExpr("subselect", stmt=stmt(sel)), conj))
+            elif c.data == "in_list":
+                st.where.append(SCond(expr(c.children[0]), "IN", SExpr("list", items=[expr(x) for x in c.children[1:]]), conj))
 
     def stmt(t):
         st = SStmt(t.data)
@@ -426,6 +444,9 @@ def single_def(fi, name):
     return None
 
 
+REPLICATED = []  # (join expression, text of the sequence whose length gives the number of copies), filled while folding
+
+
 def fold_str(e, fi, prog, _depth=0):
     """Constant-fold a string expression; None if it is not a compile-time string."""
     if _depth > 10:
@@ -481,6 +502,14 @@ def fold_str(e, fi, prog, _depth=0):
                 tgt = g.generators[0].target
                 if isinstance(tgt, ast.Name) and isinstance(elt.values[0].value, ast.Name) and elt.values[0].value.id == tgt.id and not g.generators[0].ifs:
                     return "@SETLIST@"
+        # SEP.join("?" * len(xs)) / SEP.join(["?"] * len(xs)): one placeholder per element of xs; two copies show how SEP binds
+        if sep is not None and isinstance(g, ast.BinOp) and isinstance(g.op, ast.Mult):
+            for a_, n_ in ((g.left, g.right), (g.right, g.left)):
+                one = a_.elts[0] if isinstance(a_, (ast.List, ast.Tuple)) and len(a_.elts) == 1 else a_
+                t_ = fold_str(one, fi, prog, _depth + 1)
+                if t_ is not None and (one is not a_ or len(t_) == 1) and isinstance(n_, ast.Call) and norm(n_.func) == "len" and len(n_.args) == 1:
+                    REPLICATED.append((e, norm(n_.args[0])))
+                    return t_ + sep + t_
         # SEP.join(<constant template> for _ in xs): one or more copies of the template; two copies show how SEP binds
         if sep is not None and isinstance(g, (ast.GeneratorExp, ast.ListComp)) and len(g.generators) == 1 and not g.generators[0].ifs:
             tmpl = fold_str(g.elt, fi, prog, _depth + 1)
@@ -558,6 +587,7 @@ class SqlSite:
         self.many = many
         self.bind_star = None  # for (*values, x): name of starred prefix
         self.rows_var = None
+        self.replicated_over = None
 
     def loc(self):
         return self.fi.loc(self.call)
@@ -569,6 +599,11 @@ class SqlSite:
             k = next((j for j, x in enumerate(elts) if isinstance(x, ast.Starred)), len(elts))
             if i < k:
                 return origin(elts[i], self.fi)
+            # ... and those after it positionally from the end
+            tail = len(elts) - k - 1
+            n_star = sum(1 for x in elts if isinstance(x, ast.Starred))
+            if n_star == 1 and tail and i >= self.stmt.n_params - tail:
+                return origin(elts[len(elts) - (self.stmt.n_params - i)], self.fi)
             return None
         if self.bindings is None or i >= len(self.bindings):
             return None
@@ -638,6 +673,9 @@ def _text_table(e, fi, prog):
 
 def _fold_alternatives(e, fi, prog):
     """texts an expression can take when exactly one Name in it is bound once to `A if c else B` with foldable arms"""
+    for _ in range(2):
+        if isinstance(e, ast.Name) and isinstance(single_def(fi, e.id), (ast.JoinedStr, ast.BinOp, ast.Call)):
+            e = single_def(fi, e.id)
     cands = [n for n in ast.walk(e) if isinstance(n, ast.Name) and isinstance(single_def(fi, n.id), ast.IfExp)]
     ie_nodes = [n for n in ast.walk(e) if isinstance(n, ast.IfExp)]
     if len({n.id for n in cands}) + len(ie_nodes) != 1:
@@ -682,7 +720,9 @@ def _sql_sites(prog, mod_name):
                 continue
             if not call.args:
                 continue
+            n_repl = len(REPLICATED)
             text = fold_str(call.args[0], fi, prog)
+            repl_of = REPLICATED[n_repl][1] if len(REPLICATED) > n_repl else None
             alts = _text_table(call.args[0], fi, prog) if text is None else None
             if alts:
                 # the statement is picked from a literal table of statements: one site per entry (same call, same bindings)
@@ -722,6 +762,7 @@ def _sql_sites(prog, mod_name):
             many = f.attr == "executemany"
             bindings = None
             site = SqlSite(fi, call, st, None, many)
+            site.replicated_over = repl_of  # the statement has one placeholder per element of this sequence: it touches up to len() rows
             if len(call.args) > 1:
                 b = call.args[1]
                 if isinstance(b, ast.Name):
@@ -754,7 +795,13 @@ def _sql_sites(prog, mod_name):
                     # values + (bucket_id,)  ==  (*values, bucket_id)
                     b = ast.copy_location(ast.Tuple(elts=[ast.Starred(value=b.left, ctx=ast.Load())] + list(b.right.elts), ctx=ast.Load()), b)
                 if isinstance(b, (ast.List, ast.Tuple)):
-                    b = ast.copy_location(type(b)(elts=flatten_starred(b.elts), ctx=ast.Load()), b)
+                    # [*before, x, *after] with before / after locals bound once to literal tuples (as left by an expanded helper)
+                    elts_ = []
+                    for x_ in b.elts:
+                        if isinstance(x_, ast.Starred) and isinstance(x_.value, ast.Name) and isinstance(single_def(fi, x_.value.id), (ast.Tuple, ast.List)):
+                            x_ = ast.copy_location(ast.Starred(value=single_def(fi, x_.value.id), ctx=ast.Load()), x_)
+                        elts_.append(x_)
+                    b = ast.copy_location(type(b)(elts=flatten_starred(elts_), ctx=ast.Load()), b)
                     if any(isinstance(x, ast.Starred) for x in b.elts):
                         # (*values, bucket_id): only the trailing fixed part is positional from the end
                         site.bind_star = b
